@@ -112,6 +112,22 @@ def _run_units(cfg, scratch, support_dir, tier, seed):
                 a = dict(a); a['kind'] = 'resource'
             att2.append(a)
         att = att2
+        # a function NONE of whose result clauses can be proved any more (>= 3 of them, all failing) has lost the connection between its
+        # code and its contract - e.g. a closure with a class contract was replaced by a function item; the solver then knows nothing
+        # about the result, and WHICH clause the code really violates cannot be told. It is reported under the function's first
+        # property; for the other properties of its clauses the verdict is undecided (their bounded stand-ins still decide)
+        by_fn = {}
+        for a in att:
+            if a['kind'] == 'verification' and a.get('ob') and '#implicit' not in a['ob']: by_fn.setdefault(a['fn'], []).append(a)
+        for f in ur.report['functions']:
+            cl = [c.split('|')[0] for c in f.get('clauses', []) if not c.split('|')[0].endswith('.summary') and '.class_' not in c]
+            fails = by_fn.get(f['key'], [])
+            failed_ids = {(a['ob'] or '').split('|')[0] for a in fails}
+            if len(cl) >= 3 and all(c in failed_ids for c in cl) and f.get('props'):
+                primary = f['props'][0]
+                for a in fails:
+                    if primary not in a['props']:
+                        a['kind'] = 'resource'; a['message'] = 'every result clause of this function failed together (connection between code and contract lost); undecided for this property: ' + a['message']
         ur.attributed = att
         # thorough: seed stability - the same unit under two other solver seeds; functions whose verdict flips are listed (reported,
         # not an exit-code matter: the primary run decides)
@@ -168,7 +184,7 @@ def _check(prop, cfg, tier, seed, scratch, t0):
                 R.log(a['rendered'])
             elif a['kind'] == 'resource':
                 if prop in a['props'] or not a['props']:
-                    undecided.append('unit %s: solver resource limit in %s' % (uname, a['fn']))
+                    undecided.append('unit %s: %s in %s' % (uname, 'solver resource limit' if 'every result clause' not in a.get('message', '') and not (a.get('ob') or '').split('|')[0].endswith('.summary') else a.get('message', '')[:160], a['fn']))
             else:
                 if not a['props']:
                     undecided.append('unit %s: unattributed verification failure: %s at %s' % (uname, a['message'], a['where']))
